@@ -31,8 +31,9 @@ done
 if [ -f Extract/Extract.vo ]; then
   if [ ! -f ../ocaml/driver ] || [ Extract/Extract.vo -nt ../ocaml/driver ] || [ ../ocaml/driver.ml -nt ../ocaml/driver ]; then
     ( cd ../ocaml && cp ../coq/Extract/model.ml ../coq/Extract/model.mli . 2>/dev/null; \
-      timeout 600 ocamlfind ocamlopt -O3 -w -a model.mli model.ml driver.ml -o driver > .ocaml.log 2>&1 || \
-      timeout 600 ocamlfind ocamlopt -w -a model.mli model.ml driver.ml -o driver > .ocaml.log 2>&1 ) || echo "ocaml/driver" >> .failed
+      { timeout 600 ocamlfind ocamlopt -O3 -w -a model.mli model.ml driver.ml -o driver.new > .ocaml.log 2>&1 || \
+        timeout 600 ocamlfind ocamlopt -w -a model.mli model.ml driver.ml -o driver.new > .ocaml.log 2>&1 ; } && \
+      mv -f driver.new driver ) || echo "ocaml/driver" >> .failed    # atomic replace: a running check keeps its binary
   fi
 else
   rm -f ../ocaml/driver
